@@ -142,6 +142,13 @@ impl OpenOptions {
         self.fl.create_new = v;
         self
     }
+    /// `OpenOptionsExt::mode` / `custom_flags`: permission bits and extra flags are not modelled
+    pub fn mode(&mut self, _m: u32) -> &mut Self {
+        self
+    }
+    pub fn custom_flags(&mut self, _f: i32) -> &mut Self {
+        self
+    }
     pub fn open<P: AsRef<Path>>(&self, path: P) -> io::Result<File> {
         open_with(path.as_ref(), self.fl)
     }
@@ -261,6 +268,27 @@ impl File {
     }
     pub fn set_permissions(&self, _p: Permissions) -> io::Result<()> {
         Ok(())
+    }
+    /// A second handle on the same open file description is not modelled.
+    pub fn try_clone(&self) -> io::Result<File> {
+        crate::kernel::note_unsupported("File::try_clone (dup of a simulated descriptor)");
+        Err(io::Error::new(io::ErrorKind::Unsupported, "try_clone is not simulated"))
+    }
+    // std's own advisory locking (File::lock & co.): the same flock as fs2's
+    pub fn lock(&self) -> io::Result<()> {
+        super::fs2::FileExt::lock_exclusive(self)
+    }
+    pub fn lock_shared(&self) -> io::Result<()> {
+        super::fs2::FileExt::lock_shared(self)
+    }
+    pub fn try_lock(&self) -> io::Result<()> {
+        super::fs2::FileExt::try_lock_exclusive(self)
+    }
+    pub fn try_lock_shared(&self) -> io::Result<()> {
+        super::fs2::FileExt::try_lock_shared(self)
+    }
+    pub fn unlock(&self) -> io::Result<()> {
+        super::fs2::FileExt::unlock(self)
     }
 }
 
@@ -547,6 +575,7 @@ pub fn copy<P: AsRef<Path>, Q: AsRef<Path>>(from: P, to: Q) -> io::Result<u64> {
 }
 
 pub fn hard_link<P: AsRef<Path>, Q: AsRef<Path>>(_a: P, _b: Q) -> io::Result<()> {
+    crate::kernel::note_unsupported("hard links");
     Err(io::Error::new(io::ErrorKind::Unsupported, "hard links are not simulated"))
 }
 
@@ -555,9 +584,9 @@ pub fn set_permissions<P: AsRef<Path>>(_p: P, _perm: Permissions) -> io::Result<
 }
 
 pub struct DirEntry {
-    dir: PathBuf,
-    name: String,
-    kind: Kind,
+    pub(crate) dir: PathBuf,
+    pub(crate) name: String,
+    pub(crate) kind: Kind,
 }
 
 impl DirEntry {
